@@ -40,9 +40,7 @@ func vfF(x float64) string {
 }
 
 func vfTParamsLit(tp *TopicScoreParams) string {
-	return fmt.Sprintf("{| tpTopicWeight := %s; tpTIMWeight := %s; tpTIMQuantum := %s; tpTIMCap := %s; tpFMDWeight := %s; tpFMDDecay := %s; tpFMDCap := %s; "+
-		"tpMMDWeight := %s; tpMMDDecay := %s; tpMMDCap := %s; tpMMDThreshold := %s; tpMMDWindow := %s; tpMMDActivation := %s; "+
-		"tpMFPWeight := %s; tpMFPDecay := %s; tpIMDWeight := %s; tpIMDDecay := %s |}",
+	return fmt.Sprintf("(mkTP %s %s %s %s %s %s %s %s %s %s %s %s %s %s %s %s %s)",
 		vfF(tp.TopicWeight), vfF(tp.TimeInMeshWeight), vfZ(int64(tp.TimeInMeshQuantum)), vfF(tp.TimeInMeshCap),
 		vfF(tp.FirstMessageDeliveriesWeight), vfF(tp.FirstMessageDeliveriesDecay), vfF(tp.FirstMessageDeliveriesCap),
 		vfF(tp.MeshMessageDeliveriesWeight), vfF(tp.MeshMessageDeliveriesDecay), vfF(tp.MeshMessageDeliveriesCap), vfF(tp.MeshMessageDeliveriesThreshold),
@@ -166,6 +164,16 @@ func vfScoreHistory(t *testing.T, rng *rand.Rand, nops int, style int) (lit stri
 				tp.TimeInMeshWeight, tp.TimeInMeshQuantum, tp.TimeInMeshCap = 0, 0, 0
 			}
 		}
+		if style == 2 {
+			// finite but huge weights: accepted by validate(), overflow to +Inf and -Inf
+			params.AppSpecificWeight = 1.7e308
+			params.BehaviourPenaltyWeight = -1.7e308
+			params.BehaviourPenaltyThreshold = 0
+			params.BehaviourPenaltyDecay = 0.5
+			for _, p := range pids {
+				n.app[p] = 2
+			}
+		}
 		if err := params.validate(); err != nil {
 			t.Fatalf("generator produced a parameter set the library rejects: %v", err)
 		}
@@ -173,7 +181,7 @@ func vfScoreHistory(t *testing.T, rng *rand.Rand, nops int, style int) (lit stri
 		for i := 0; i < ntopics; i++ {
 			tl = append(tl, fmt.Sprintf("(%d, %s)", i, vfTParamsLit(params.Topics[vfTopic(i)])))
 		}
-		plit := fmt.Sprintf("{| spTopics := [%s]; spTopicScoreCap := %s; spAppWeight := %s; spIPWeight := %s; spIPThreshold := %d; spBPWeight := %s; spBPThreshold := %s; spBPDecay := %s; spDecayToZero := %s; spRetain := %s; spSeenTTL := %s |}",
+		plit := fmt.Sprintf("(mkSP [%s] %s %s %s %d %s %s %s %s %s %s)",
 			strings.Join(tl, "; "), vfF(params.TopicScoreCap), vfF(params.AppSpecificWeight), vfF(params.IPColocationFactorWeight), params.IPColocationFactorThreshold,
 			vfF(params.BehaviourPenaltyWeight), vfF(params.BehaviourPenaltyThreshold), vfF(params.BehaviourPenaltyDecay), vfF(params.DecayToZero),
 			vfZ(int64(params.RetainScore)), vfZ(int64(params.SeenMsgTTL)))
@@ -216,7 +224,7 @@ func vfScoreHistory(t *testing.T, rng *rand.Rand, nops int, style int) (lit stri
 				switch {
 				case r < 10:
 					n.ps.OnNewOutboundStream(pids[p], GossipSubID_v11)
-					emit(fmt.Sprintf("SAddPeer _ %d", p))
+					emit(fmt.Sprintf("fAddPeer %d", p))
 				case r < 15:
 					app := n.app[pids[p]]
 					n.ps.Lock()
@@ -226,19 +234,19 @@ func vfScoreHistory(t *testing.T, rng *rand.Rand, nops int, style int) (lit stri
 					if had {
 						nRetain++
 					}
-					emit(fmt.Sprintf("SRemovePeer _ %d %s", p, vfF(app)))
+					emit(fmt.Sprintf("fRemovePeer %d %s", p, vfF(app)))
 				case r < 25:
 					n.ps.Graft(pids[p], vfTopic(tp))
-					emit(fmt.Sprintf("SGraft _ %d %d", p, tp))
+					emit(fmt.Sprintf("fGraft %d %d", p, tp))
 				case r < 31:
 					n.ps.Prune(pids[p], vfTopic(tp))
-					emit(fmt.Sprintf("SPrune _ %d %d", p, tp))
+					emit(fmt.Sprintf("fPrune %d %d", p, tp))
 				case r < 36:
 					id := nextMsg
 					nextMsg++
 					live = append(live, id)
 					n.ps.ValidateMessage(mkMsg(id, p, tp))
-					emit(fmt.Sprintf("SValidate _ %d", id))
+					emit(fmt.Sprintf("fValidate %d", id))
 				case r < 48:
 					id := nextMsg
 					if len(live) > 0 && rng.Intn(2) == 0 {
@@ -248,7 +256,7 @@ func vfScoreHistory(t *testing.T, rng *rand.Rand, nops int, style int) (lit stri
 						live = append(live, id)
 					}
 					n.ps.DeliverMessage(mkMsg(id, p, tp))
-					emit(fmt.Sprintf("SDeliver _ %d %d %d", id, p, tp))
+					emit(fmt.Sprintf("fDeliver %d %d %d", id, p, tp))
 				case r < 58:
 					id := nextMsg
 					if len(live) > 0 && rng.Intn(2) == 0 {
@@ -266,7 +274,7 @@ func vfScoreHistory(t *testing.T, rng *rand.Rand, nops int, style int) (lit stri
 					}
 					rs := reasons[rng.Intn(len(reasons))]
 					n.ps.RejectMessage(mkMsg(id, p, tp), rs.go_)
-					emit(fmt.Sprintf("SReject _ %d %d %d %s", id, p, tp, rs.coq))
+					emit(fmt.Sprintf("fReject %d %d %d %s", id, p, tp, rs.coq))
 				case r < 72:
 					if len(live) == 0 {
 						continue
@@ -274,18 +282,18 @@ func vfScoreHistory(t *testing.T, rng *rand.Rand, nops int, style int) (lit stri
 					id := live[rng.Intn(len(live))]
 					n.ps.DuplicateMessage(mkMsg(id, p, tp))
 					nDup++
-					emit(fmt.Sprintf("SDuplicate _ %d %d %d", id, p, tp))
+					emit(fmt.Sprintf("fDuplicate %d %d %d", id, p, tp))
 				case r < 77:
 					c := 1 + rng.Intn(3)
 					n.ps.AddPenalty(pids[p], c)
-					emit(fmt.Sprintf("SPenalty _ %d %s", p, vfZ(int64(c))))
+					emit(fmt.Sprintf("fPenalty %d %s", p, vfZ(int64(c))))
 				case r < 87:
 					n.ps.refreshScores()
 					nDecay++
-					emit("SRefresh _")
+					emit("fRefresh")
 				case r < 89:
 					n.ps.gcDeliveryRecords()
-					emit("SGc _")
+					emit("fGc")
 				case r < 92:
 					if tp >= ntopics {
 						continue
@@ -301,7 +309,7 @@ func vfScoreHistory(t *testing.T, rng *rand.Rand, nops int, style int) (lit stri
 					if err := n.ps.SetTopicScoreParams(vfTopic(tp), ntp); err != nil {
 						t.Fatal(err)
 					}
-					emit(fmt.Sprintf("SSetTopic _ %d %s", tp, vfTParamsLit(ntp)))
+					emit(fmt.Sprintf("fSetTopic %d %s", tp, vfTParamsLit(ntp)))
 				case r < 96:
 					// IP assignment (what refreshIPs does with the addresses of the peer's connections)
 					var ips []string
@@ -316,11 +324,11 @@ func vfScoreHistory(t *testing.T, rng *rand.Rand, nops int, style int) (lit stri
 						st.ips = ips
 					}
 					n.ps.Unlock()
-					emit(fmt.Sprintf("SSetIPs _ %d [%s]", p, strings.Join(il, "; ")))
+					emit(fmt.Sprintf("fSetIPs %d [%s]", p, strings.Join(il, "; ")))
 				default:
 					d := time.Duration(1+rng.Intn(8)) * 500 * time.Millisecond
 					time.Sleep(d)
-					emit(fmt.Sprintf("SAdvance _ %s", vfZ(int64(d))))
+					emit(fmt.Sprintf("fAdvance %s", vfZ(int64(d))))
 				}
 			}
 		}()
@@ -341,6 +349,9 @@ func TestVF_Score(t *testing.T) {
 		style := 0
 		if c%10 == 9 {
 			style = 1
+		}
+		if c%25 == 13 {
+			style = 2
 		}
 		lit, rec, nt, pan := vfScoreHistory(t, rng, 40+rng.Intn(80), style)
 		if pan != "" && viol == nil {
